@@ -75,8 +75,10 @@ def r1(ctx):
     inner = ret
     if isinstance(inner, ast.Call) and call_name(inner) == "np.var" and len(inner.args) == 1 and not inner.keywords:
         inner = inner.args[0]
-        while isinstance(inner, ast.Call) and call_name(inner) in ("np.array", "np.asarray", "list") and len(inner.args) == 1:
-            inner = inner.args[0]
+        for _ in range(4):
+            inner = B.resolve(inner, env)
+            while isinstance(inner, ast.Call) and call_name(inner) in ("np.array", "np.asarray", "list") and len(inner.args) == 1:
+                inner = inner.args[0]
         comp = B.resolve(inner, env)
         if isinstance(comp, (ast.ListComp, ast.GeneratorExp)) and len(comp.generators) == 1 and not comp.generators[0].ifs and isinstance(comp.generators[0].target, ast.Name):
             g_ = comp.generators[0]
